@@ -12,11 +12,21 @@ RULE = ("task DAGs (structured, all small DAGs, random, wide fans) x --jobs x ev
         "starvation of one child, exits + SIGCHLD at line boundaries of Conductor's code; non-trivial = >=2 tasks executed; distinct = hash(graph, flags, interleaving)")
 
 
+def soak(tier, n, rep_hook=None):
+    from .. import common, procmon
+    rng = common.rng_for("c09soak", common.base_seed())
+    k = 32 if tier == "quick" else 2000
+    if n:
+        k = max(4, n // 40)
+    return [{"seed": rng.randrange(1 << 30), "ntasks": rng.choice([40, 80, 150]), "jobs": rng.choice([2, 4, 8, 8]), "par_p": rng.choice([1.0, 1.0, 0.8]), "p_dep": rng.choice([0.0, 0.1]),
+             "pin": rng.sample(range(16), 4) if rng.random() < 0.7 else None} for _ in range(k)]
+
+
 def main(tier, n=None):
     allst = sched.ALL_STRATS
     plan = [("live", 900, 60000, sched.CHEAP_STRATS, 8), ("wide", 500, 30000, sched.CHEAP_STRATS, 10), ("live", 250, 15000, list(sched.schedsim.LINE_STRATEGIES), 7),
             ("live", 200, 10000, ["at-waitpid-pid", "at-waitpid-pid-some", "in-fork", "in-fork-some"], 8)]
-    rep, code = S.run(PROP, tier, "exploration", RULE, plan, ["c09_runs", "c09_outcome_checks", "c09_sigchld_deliveries", "c09_runs_with_batched_exits", "e1_runs", "c09_e1_sigstop_batches"], n, e1=("live", 60, 1500, 7))
+    rep, code = S.run(PROP, tier, "exploration", RULE, plan, ["c09_runs", "c09_outcome_checks", "c09_sigchld_deliveries", "c09_runs_with_batched_exits", "e1_runs", "c09_e1_sigstop_batches", "c09_soak_runs"], n, e1=("live", 60, 1500, 7), post=soak)
     return code
 
 
